@@ -236,6 +236,23 @@ Theorem ds_topmost :
     mux_match z q 43 = Ok (Some h).
 Proof. exact @mux_match_ds_topmost. Qed.
 
+(* The stricter reading of the property text - "DS queries go to the handler of
+   the ENCLOSING parent zone", i.e. of the closest registered proper ancestor -
+   is FALSE on the faithful model: there are patterns z (no root pattern), a name
+   q that is itself registered and whose closest registered proper ancestor, at
+   label start off, has handler h, such that match does not return h (with
+   a.example.org., example.org. and org. registered the DS query for
+   a.example.org. goes to org.).  Known finding C14/Mux/ds-not-closest-parent. *)
+Theorem ds_closest_parent_refuted :
+  exists (z : mux N) (q : bytes) (off : nat) (h : N),
+    lookup z [46] = None /\ lookup z (canonical_name q) <> None /\
+    (0 < off)%nat /\ label_start (canonical_name q) off /\
+    lookup z (skipn off (canonical_name q)) = Some h /\
+    (forall o, (0 < o < off)%nat -> label_start (canonical_name q) o ->
+               lookup z (skipn o (canonical_name q)) = None) /\
+    mux_match z q 43 <> Ok (Some h).
+Proof. exact ds_closest_parent_refuted_witness. Qed.
+
 (* Without a registered ancestor the child (the name itself) gets the DS query. *)
 Theorem ds_child_otherwise :
   forall (H : Type) (z : mux H) (q : bytes),
